@@ -942,6 +942,60 @@ impl<F: FromUniformBytes<64> + Ord> MockProver<F> {
             )
         };
 
+        // Check the constraints that sit under an additive selector (trash
+        // arguments): on every row where the selector is enabled, all of them
+        // must be satisfied. (On the other rows the trash column absorbs them.)
+        // Gates created with an additive selector are exactly those left with
+        // no polynomials of their own, in the same order as the trashcans.
+        let trash_gates =
+            self.cs.gates.iter().enumerate().filter(|(_, g)| g.polynomials().is_empty());
+        let trash_errors =
+            self.cs
+                .trashcans
+                .iter()
+                .zip(trash_gates)
+                .flat_map(|(trash, (gate_index, gate))| {
+                    let load = &load;
+                    gate_row_ids
+                        .clone()
+                        .into_par_iter()
+                        .filter(move |row| load(trash.selector(), *row) == Value::Real(F::ONE))
+                        .flat_map(move |row| {
+                            trash
+                                .constraint_expressions()
+                                .iter()
+                                .enumerate()
+                                .filter_map(move |(poly_index, poly)| {
+                                    let constraint: metadata::Constraint = (
+                                        (gate_index, gate.name()).into(),
+                                        poly_index,
+                                        trash.name(),
+                                    )
+                                        .into();
+                                    match load(poly, row) {
+                                        Value::Real(x) if x.is_zero_vartime() => None,
+                                        Value::Real(_) => {
+                                            Some(VerifyFailure::ConstraintNotSatisfied {
+                                                constraint,
+                                                location: FailureLocation::find_expressions(
+                                                    &self.cs,
+                                                    &self.regions,
+                                                    row,
+                                                    Some(poly).into_iter(),
+                                                ),
+                                                cell_values: vec![],
+                                            })
+                                        }
+                                        Value::Poison => {
+                                            Some(VerifyFailure::ConstraintPoisoned { constraint })
+                                        }
+                                    }
+                                })
+                                .collect::<Vec<_>>()
+                        })
+                        .collect::<Vec<_>>()
+                });
+
         let mut cached_table = Vec::new();
         let mut cached_table_identifier = Vec::new();
         // Check that all lookups exist in their respective tables.
@@ -1085,6 +1139,7 @@ impl<F: FromUniformBytes<64> + Ord> MockProver<F> {
         let mut errors: Vec<_> = iter::empty()
             .chain(selector_errors)
             .chain(gate_errors)
+            .chain(trash_errors)
             .chain(lookup_errors)
             .chain(perm_errors)
             .collect();
